@@ -195,10 +195,14 @@ def shrink(ops, still_fails):
     """Delta-debug an op list."""
     ops = list(ops)
     changed = True
-    while changed:
+    budget = 120            # child-process runs
+    while changed and budget > 0:
         changed = False
         for i in range(len(ops)):
             cand = ops[:i] + ops[i + 1:]
+            budget -= 1
+            if budget <= 0:
+                break
             if cand and still_fails(cand):
                 ops = cand
                 changed = True
@@ -275,7 +279,7 @@ def run(tier, seed):
         fails = property_predicates(ops, states)
         if fails:
             pred_fail += 1
-            if pred_fail <= 3:
+            if pred_fail <= 2:
                 def still(cand):
                     r, out, _ = vlib.run_lines(gvh, ["ctx"], ["x " + ";".join(op_str(o) for o in cand)], timeout=60)
                     return r == 0 and out and bool(property_predicates(cand, parse_out(out[0])))
